@@ -21,7 +21,7 @@
 
 namespace {
 
-enum { OP_LOG = 1, OP_SETLEVEL, OP_SLEEP, OP_YIELD, OP_WRITER_FAIL, OP_STREAM_FAIL, OP_FORMAT_DIRECT };
+enum { OP_LOG = 1, OP_SETLEVEL, OP_SLEEP, OP_YIELD, OP_WRITER_FAIL, OP_STREAM_FAIL, OP_FORMAT_DIRECT, OP_LOG_SIDE };
 enum { MODE_EXT_BG = 1, MODE_EXT_FG = 2, MODE_STANDARD = 3, MODE_NOALLOC = 4 };
 // cfg "own_file": modes 3 and 4 let the library open (and later close) the log file itself by name
 static const int CTRL = 5;
@@ -78,6 +78,14 @@ struct Ctx {
     bool next_chunk_is_retry = false;
     uint64_t ops_done = 0, accepted = 0, rejected = 0, either = 0, truncated = 0;
     const char *subject_name = nullptr;
+    // A second, independent logger alive next to the one under test (cfg "side_logger"): a no-alloc logger on a stream of its own,
+    // used through AWS_LOGUF by the same threads. Each logger's lines must reach its own sink only, whole, once and in order.
+    bool have_side = false, side_cleaned = false;
+    struct aws_logger side;
+    FILE *side_stream = nullptr;
+    std::deque<Call> side_calls;
+    std::map<std::pair<int, int>, Call *> side_by_id;
+    std::map<int, int> side_last_k, side_kctr;
 };
 static Ctx *g = nullptr;
 
@@ -127,6 +135,8 @@ void check_line(Ctx &c, const std::string &line, int writer_tid) {
     size_t sep = line.find("] - M");
     if (sep != std::string::npos) sep += 1;
     if (sep == std::string::npos) {
+        if (line.find("] - S") != std::string::npos)
+            sim::violation("c14:wrong-sink", "a line logged through the second logger reached the first logger's sink: \"%.100s\"", line.c_str());
         // a line of the library's own (different subject); not produced by the workload
         sim::probe("foreign_line");
         return;
@@ -228,6 +238,41 @@ void stream_cb(const char *data, size_t n, void *ud) {
     }
     c.recs.push_back(Rec{chunk, sim::self(), sim::seq(), !whole});
     if (c.slow_permille && (int64_t)c.wr.below(1000) < c.slow_permille) sim::sleep_ns(1000000ull);
+}
+
+// ---- sink of the second logger
+void side_cb(const char *data, size_t n, void *ud) {
+    Ctx &c = *(Ctx *)ud;
+    std::string line(data, n);
+    if (c.side_cleaned) sim::violation("c14:write-after-cleanup", "second logger: a line reached its stream after clean-up had returned");
+    if (line.empty() || line.back() != '\n') sim::violation("c14:torn", "second logger: a write that is not one whole line reached its stream: \"%.80s\"", line.c_str());
+    if (line.find('\n') != line.size() - 1) sim::violation("c14:newline", "second logger: line contains an embedded newline (torn or merged lines)");
+    if (memchr(line.data(), 0, line.size())) sim::violation("c14:nul", "second logger: line contains a NUL byte");
+    if (line.find("] - M") != std::string::npos)
+        sim::violation("c14:wrong-sink", "a line logged through the first logger reached the second logger's sink: \"%.100s\"", line.c_str());
+    size_t sep = line.find("] - S");
+    if (sep == std::string::npos) sim::violation("c14:phantom", "second logger: unexpected line \"%.100s\"", line.c_str());
+    sep += 1;
+    int thr = 0, k = 0;
+    if (sscanf(line.c_str() + sep + 4, "%d.%d|", &thr, &k) != 2) sim::violation("c14:format", "second logger: cannot parse message id in \"%.120s\"", line.c_str());
+    auto it = c.side_by_id.find({thr, k});
+    if (it == c.side_by_id.end()) sim::violation("c14:phantom", "second logger: line for call S%d.%d that was never made", thr, k);
+    Call &call = *it->second;
+    if (++call.lines > 1) sim::violation("c14:duplicate", "second logger: call S%d.%d reached the stream twice", thr, k);
+    int &lk = c.side_last_k[thr];
+    if (k <= lk) sim::violation("c14:order", "second logger, thread %d: line %d reached the stream after line %d", thr, k, lk);
+    lk = k;
+    std::string prefix = line.substr(0, sep + 3), msg = line.substr(sep + 3, line.size() - sep - 4);
+    std::string want_head = std::string("[") + kLevel[call.level] + "] [";
+    std::string want_tail = std::string("] [") + c.tid_repr[thr] + "] [" + c.subject_name + "] - ";
+    if (prefix.size() < want_head.size() + want_tail.size() || prefix.compare(0, want_head.size(), want_head) != 0 ||
+        prefix.compare(prefix.size() - want_tail.size(), std::string::npos, want_tail) != 0)
+        sim::violation("c14:prefix", "second logger, call S%d.%d: prefix \"%s\" is not \"%s<timestamp>%s\"", thr, k, prefix.c_str(), want_head.c_str(), want_tail.c_str());
+    if (line.size() > NOALLOC_MAX) sim::violation("c14:noalloc-overrun", "second (no-alloc) logger wrote a line of %zu bytes (buffer is %zu)", line.size(), NOALLOC_MAX);
+    if (call.expected_msg.compare(0, msg.size(), msg) != 0) sim::violation("c14:message", "second logger, call S%d.%d: written message is not (a prefix of) the formatted text", thr, k);
+    if (msg.size() < call.expected_msg.size() && line.size() < NOALLOC_MAX - 1)
+        sim::violation("c14:message", "second logger, call S%d.%d: message cut although the line (%zu bytes) does not fill the buffer", thr, k, line.size());
+    c.recs.push_back(Rec{line, sim::self(), sim::seq(), false});
 }
 
 void observer(const sim::Event &ev, void *ud) {
@@ -344,6 +389,27 @@ static int format_direct_va(struct aws_logging_standard_formatting_data *fd, ...
     va_end(ap);
     return rc;
 }
+void do_log_side(Ctx &c, int thr, const sim::Op &op) {
+    if (!c.have_side) return;
+    int level = (int)(op.a % 6) + 1;
+    size_t len = (size_t)op.c;
+    std::string body = make_body((uint64_t)op.d, len);
+    int k = ++c.side_kctr[thr];
+    c.side_calls.emplace_back();
+    Call &call = c.side_calls.back();
+    call.thr = thr; call.k = k; call.level = level;
+    char head[64];
+    snprintf(head, sizeof head, "S%d.%d|", thr, k);
+    call.expected_msg = std::string(head) + body;
+    c.side_by_id[{thr, k}] = &call;
+    sim::note(sim::PK_HARNESS, nullptr, 650 + level);
+    sim::probe("line_logged_through_second_logger");
+    struct aws_logger *sl = &c.side;
+    AWS_LOGUF(sl, (enum aws_log_level)level, AWS_LS_COMMON_GENERAL, "S%d.%d|%s", thr, k, body.c_str())
+    call.returned = true;
+    c.ops_done++;
+}
+
 void do_format_direct(Ctx &c, int thr, const sim::Op &op) {
     size_t total = (size_t)op.a;
     if (total == 0) total = 1;
@@ -416,6 +482,7 @@ void logger_fn(void *arg) {
         if (op.thr != ta->idx) continue;
         switch (op.kind) {
             case OP_LOG: do_log(c, ta->idx, op); break;
+            case OP_LOG_SIDE: do_log_side(c, ta->idx, op); break;
             case OP_FORMAT_DIRECT: do_format_direct(c, ta->idx, op); break;
             case OP_SLEEP: sim::sleep_ns((uint64_t)op.a); break;
             case OP_YIELD: sim::yield(); break;
@@ -543,6 +610,16 @@ RunInfo run(const sim::Plan &plan) {
         return ri;
     }
     aws_logger_set(&c.logger);
+    if (plan.get("side_logger", 0)) {
+        struct aws_logger_standard_options so2;
+        AWS_ZERO_STRUCT(so2);
+        so2.level = AWS_LL_TRACE;
+        c.side_stream = simfile::open_write_stream(side_cb, &c);
+        so2.file = c.side_stream;
+        if (aws_logger_init_noalloc(&c.side, c.alloc, &so2)) sim::violation("c14:init", "second logger: aws_logger_init_noalloc failed");
+        c.have_side = true;
+        sim::probe("two_loggers_alive");
+    }
     struct aws_thread th[6];
     ThreadArg ta[6];
     int nth = 0;
@@ -578,6 +655,13 @@ RunInfo run(const sim::Plan &plan) {
             if (simfile::log_path_opens() != 1 || simfile::log_path_closes() != 1)
                 sim::violation("c14:file-leak", "logger that opened its own file: %d opens, %d closes after clean-up", simfile::log_path_opens(), simfile::log_path_closes());
         } else fclose(c.stream);
+    }
+    if (c.have_side) {
+        aws_logger_clean_up(&c.side);
+        c.side_cleaned = true;
+        fclose(c.side_stream);
+        for (auto &call : c.side_calls)
+            if (call.lines != 1) sim::violation("c14:lost", "second logger: call S%d.%d never reached its stream although clean-up has returned", call.thr, call.k);
     }
     sim::sleep_ns(5000000000ull); // grace period: nothing may be written after clean-up
     if (sim::mutex_held_any()) sim::violation("c14:lock-held", "a mutex is still locked at the end of the run");
@@ -616,6 +700,8 @@ void gen(uint64_t seed, int tier, sim::Plan &p) {
         p.cfg["own_file"] = 1;
         if (r.chance(0.08)) p.cfg["fopen_fail"] = r.pick(std::vector<int64_t>{EACCES, ENOENT, EMFILE});
     }
+    bool side = r.chance(0.2);
+    if (side) p.cfg["side_logger"] = 1;
     bool faults = p.get("faults") != 0;
     int maxl = tier ? 40 : 14;
     int total = 0;
@@ -644,7 +730,11 @@ void gen(uint64_t seed, int tier, sim::Plan &p) {
                 p.ops.push_back(f);
             }
             if (r.chance(0.12)) { sim::Op s; s.thr = t; s.kind = r.chance(0.5) ? OP_YIELD : OP_SLEEP; s.a = r.pick(std::vector<int64_t>{1000, 1000000, 1000000000}); p.ops.push_back(s); }
-            if (faults && (mode == 3 || mode == 4) && r.chance(0.03)) {
+            if (side && r.chance(0.5)) {
+                sim::Op so; so.thr = t; so.kind = OP_LOG_SIDE; so.a = r.range(0, 5); so.c = r.chance(0.85) ? r.range(0, 200) : r.range(8000, 8300); so.d = (int64_t)(r.next() >> 2);
+                p.ops.push_back(so);
+            }
+            if (!side && faults && (mode == 3 || mode == 4) && r.chance(0.03)) {
                 sim::Op f; f.thr = t; f.kind = OP_STREAM_FAIL; f.a = r.range(1, 3); f.b = r.pick(std::vector<int64_t>{0, 0, 10, 100}); f.c = r.pick(std::vector<int64_t>{EIO, ENOSPC});
                 p.ops.push_back(f);
             }
@@ -687,6 +777,7 @@ std::string op_text(const sim::Op &op) {
             snprintf(b, sizeof b, "T%d: %s(%s, format %s, body of %lld bytes)", op.thr, fm[(op.a / 6) % 4], kLevel[op.a % 6 + 1], sh[op.b % 5], (long long)op.c);
             break;
         }
+        case OP_LOG_SIDE: snprintf(b, sizeof b, "T%d: AWS_LOGUF(second logger, %s, body of %lld bytes)", op.thr, kLevel[op.a % 6 + 1], (long long)op.c); break;
         case OP_SETLEVEL: snprintf(b, sizeof b, "controller: aws_logger_set_log_level(%s)", kLevel[op.a % 7]); break;
         case OP_SLEEP: snprintf(b, sizeof b, "T%d: sleep(%lld ns virtual)", op.thr, (long long)op.a); break;
         case OP_YIELD: snprintf(b, sizeof b, "T%d: yield", op.thr); break;
